@@ -45,3 +45,95 @@ Print Assumptions C18_qp_chunk_independent.
 Example C18_b64_example :
   b64_body (repeat 65%N 60) <> None /\ length (concat [repeat 65%N 60]) = 60.
 Proof. split; [vm_compute; discriminate | reflexivity]. Qed.
+
+(* ---------- header fields: msgWriter.writeHeader folds and the folding is lossless ---------- *)
+From Coq Require Import String ZArith.
+From Verif Require Import HeaderFold WordEnc Writer.
+From VerifProofs Require Import HeaderSafeProofs HeaderFoldProofs.
+
+(* For every key and every list of values made of header-safe bytes (printable ASCII or TAB — what
+   the header encoder produces), RFC 5322 unfolding of the text writeHeader emits gives back
+   exactly "Key: " ++ strings.Join(values, ", ") — nothing lost, nothing added, also with
+   consecutive blanks, leading / trailing blanks, TABs, blank-only continuation lines and keys of
+   any length. *)
+Theorem C18_header_unfold : forall (key : bytes) (values : list bytes),
+  forallb hdr_safe_byte key = true ->
+  Forall (fun v => forallb hdr_safe_byte v = true) values ->
+  unfold_hdr (wh_buffer key values) = key ++ bs ": " ++ join (bs ", ") values.
+Proof. exact header_unfold. Qed.
+Print Assumptions C18_header_unfold.
+
+(* Every line (split at CRLF) of the emitted field has at most 78 characters, unless — after its
+   single leading fold blank — it contains no blank: one word of the value, which the loop never
+   splits (or "Key:" of an over-long key without blanks).  Needed of the key: it leaves room
+   (len(key) + 5 <= MaxHeaderLength) or contains no blank. *)
+Theorem C18_header_line_bound : forall (key : bytes) (values : list bytes),
+  forallb hdr_safe_byte key = true ->
+  Forall (fun v => forallb hdr_safe_byte v = true) values ->
+  ((zlen key + 5 <= max_header)%Z \/ has_sp key = false) ->
+  fold_bound_ok (wh_buffer key values ++ crlf) = true.
+Proof. exact header_line_bound. Qed.
+Print Assumptions C18_header_line_bound.
+
+(* the bound the charLength arithmetic really keeps: MaxHeaderLength - 4 (= 72), and it is reached *)
+Theorem C18_header_line_bound_exact : forall (key : bytes) (values : list bytes),
+  forallb hdr_safe_byte key = true ->
+  Forall (fun v => forallb hdr_safe_byte v = true) values ->
+  ((zlen key + 5 <= max_header)%Z \/ has_sp key = false) ->
+  fold_bound_ok_n fold_exact_bound (wh_buffer key values ++ crlf) = true.
+Proof. exact header_line_bound_exact. Qed.
+Print Assumptions C18_header_line_bound_exact.
+
+(* the side condition on the key cannot be dropped *)
+Theorem C18_header_line_bound_long_key_refuted : exists key values,
+  forallb hdr_safe_byte key = true /\ Forall (fun v => forallb hdr_safe_byte v = true) values /\
+  fold_bound_ok (wh_buffer key values ++ crlf) = false.
+Proof. exact header_line_bound_long_key_refuted. Qed.
+Print Assumptions C18_header_line_bound_long_key_refuted.
+
+(* "blank" above is SP: the loop folds at SP only.  Counting TAB as a blank as well, a value word
+   with an inner TAB is a counterexample; without TABs the bound holds in that reading too. *)
+Theorem C18_header_line_bound_tab_refuted : exists key values,
+  forallb hdr_safe_byte key = true /\ Forall (fun v => forallb hdr_safe_byte v = true) values /\
+  fold_bound_ok_wsp (wh_buffer key values ++ crlf) = false.
+Proof. exact header_line_bound_tab_refuted. Qed.
+Print Assumptions C18_header_line_bound_tab_refuted.
+
+Theorem C18_header_line_bound_no_tab : forall (key : bytes) (values : list bytes),
+  forallb hdr_safe_byte key = true -> forallb no9 key = true ->
+  Forall (fun v => forallb hdr_safe_byte v = true) values ->
+  Forall (fun v => forallb no9 v = true) values ->
+  ((zlen key + 5 <= max_header)%Z \/ has_sp key = false) ->
+  fold_bound_ok_wsp (wh_buffer key values ++ crlf) = true.
+Proof. exact header_line_bound_wsp. Qed.
+Print Assumptions C18_header_line_bound_no_tab.
+
+(* Part headers (depth > 0) are written by multipart.CreatePart without folding: a 60-character
+   non-ASCII attachment name gives a 484-character Content-Type line that contains blanks
+   (known finding part-header-line-too-long). *)
+Theorem C18_part_header_refuted : exists f : file,
+  fold_bound_ok (file_part_header 113 true f) = false /\
+  existsb (fun l => (78 <? length l)%nat && has_sp (strip1 l)) (lines_of (file_part_header 113 true f)) = true /\
+  list_max (map (@length N) (lines_of (file_part_header 113 true f))) = 484%nat.
+Proof. exact part_header_refuted. Qed.
+Print Assumptions C18_part_header_refuted.
+
+(* non-vacuity: a safe value that really folds (three lines, a blank-only word sequence, a
+   trailing blank), satisfies the hypotheses, unfolds to what was set and keeps the bound *)
+Example C18_header_fold_example :
+  let key := bs "Subject" in
+  let values := [repeat 97%N 40 ++ bs "  " ++ repeat 98%N 40 ++ bs " " ++ repeat 99%N 30 ++ bs " "; bs "second value"] in
+  forallb hdr_safe_byte key = true /\ Forall (fun v => forallb hdr_safe_byte v = true) values /\
+  (zlen key + 5 <= max_header)%Z /\
+  count_crlf (wh_buffer key values) = 2%nat /\
+  unfold_hdr (wh_buffer key values) = key ++ bs ": " ++ join (bs ", ") values /\
+  fold_bound_ok (wh_buffer key values ++ crlf) = true.
+Proof.
+  cbv zeta. split; [reflexivity|]. split; [repeat constructor|]. split; [vm_compute; discriminate|].
+  repeat split; vm_compute; reflexivity.
+Qed.
+
+Example C18_header_line_bound_tight :
+  fold_bound_ok_n 72 (wh_buffer (bs "Subject") [repeat 97%N 31 ++ [32%N] ++ repeat 97%N 31] ++ crlf) = true /\
+  fold_bound_ok_n 71 (wh_buffer (bs "Subject") [repeat 97%N 31 ++ [32%N] ++ repeat 97%N 31] ++ crlf) = false.
+Proof. exact header_line_bound_tight. Qed.
